@@ -35,13 +35,21 @@ int poll(struct pollfd *fds, nfds_t n, int timeout) {
 	return r;
 }
 
+unsigned g_recv_calls;
 ssize_t recv(int fd, void *buf, size_t len, int flags) {
 	ssize_t c = nondet_ll();
+	/* start of a receive round: the stream invariant holds (base: precondition of dispatch; step: after any round).
+	 * The do-while over rounds cannot be given a loop contract (goto-instrument limitation), so it is explored for one
+	 * data-carrying round from an ARBITRARY invariant state plus the start of the next round, where the invariant is
+	 * asserted again: induction over rounds. */
+	__CPROVER_assert(*g_inlen_p <= g_inbuf_size && g_in == g_out + *g_inlen_p && !g_pending && !g_tcp_env_failed, "stream invariant at the start of every receive round (inductive step over rounds)");
+	g_recv_calls++;
 	__CPROVER_assert(!g_peer_closed && !g_sock_closed, "no read from a closed connection");
 	__CPROVER_assert(!g_pending, "delivered element is cut off the buffer before more is read");
 	__CPROVER_assert((unsigned char *)buf == g_inbuf_p + *g_inlen_p, "recv appends directly behind the buffered octets");
 	__CPROVER_assert(*g_inlen_p <= g_inbuf_size && len <= g_inbuf_size - *g_inlen_p, "recv window lies inside the reassembly buffer");
 	__CPROVER_assume(c >= -1 && c <= (ssize_t)len);
+	if (g_recv_calls >= 2) { g_errno = EWOULDBLOCK; return -1; }      /* exploration bound: the second round only checks its start state */
 	if (c < 0) { g_errno = nondet_int(); if (g_errno != EWOULDBLOCK && g_errno != EAGAIN) g_peer_closed = 1; }
 	else if (c == 0) g_peer_closed = 1;
 	else g_in += (unsigned long long)c;
@@ -93,6 +101,7 @@ static int req_remove(KSI_LIST(KSI_AsyncHandle) *l, size_t pos, KSI_AsyncHandle 
 	g_q_len--; g_q_removed++;
 	/* the next head: an arbitrary fresh request */
 	g_req.state = nondet_int(); g_req.len = nondet_size(); g_req.sentCount = 0; g_req.reqTime = nondet_ll();
+	g_req_raw_p = malloc(1); __CPROVER_assume(g_req_raw_p != NULL);
 	g_req_len0 = g_req.len; g_req.raw = g_req_raw_p;
 	return KSI_OK;
 }
@@ -103,7 +112,7 @@ ssize_t send(int fd, const void *buf, size_t len, int flags) {
 	__CPROVER_assert(g_req.state == KSI_ASYNC_STATE_WAITING_FOR_DISPATCH, "only requests waiting for dispatch are written");
 	__CPROVER_assert((const unsigned char *)buf == g_req_raw_p + g_req.sentCount && len == g_req_len0 - g_req.sentCount && g_req.sentCount < g_req_len0,
 			"send continues the head request exactly where the previous partial send stopped, up to its end");
-	__CPROVER_assume(c >= -1 && c <= (ssize_t)len);
+	__CPROVER_assume(c >= -1 && c <= (ssize_t)len && c != 0);   /* POSIX: a non-empty send on a stream socket transfers something or fails */
 	if (c < 0) { g_errno = nondet_int(); if (g_errno != EWOULDBLOCK && g_errno != EAGAIN) g_peer_closed = 1; }
 	return c;
 }
